@@ -29,8 +29,9 @@ type c06Schema struct {
 }
 
 type c06Op struct {
-	Op   string      `json:"op"` // "try" | "resize" | "sync"
-	Kind string      `json:"rk"` // disp: kind of the request (get, list, create, update, delete, watch, log, exec, proxy)
+	Op   string      `json:"op"`   // "try" | "resize" | "sync"
+	Hold bool        `json:"hold"` // ulim: the request stays in flight (released at the end of the case)
+	Kind string      `json:"rk"`   // disp: kind of the request (get, list, create, update, delete, watch, log, exec, proxy)
 	Spec []c06Schema `json:"spec"`
 	T    int64       `json:"t"` // absolute Unix ns of the clock reading of this call
 	Q    int32       `json:"q"`
